@@ -45,12 +45,12 @@ def run(rep, tier, seed):
     for e in events:
         rep.case(e, e.get("class") != "none")
     rep.sample(events[:3] + events[-2:])
-    rep.rule += ("; corruption probes: 9 classes x {local, http, casync protocol (real server), raw casync peer} x compressed/uncompressed x verify on/off x "
-                 "7 wrappers x {damage before first read, damage after an intact read}, random bit / truncation length / garbage per instance; consumers "
+    rep.rule += ("; corruption probes: 9 classes x {local, http, S3 (in-memory endpoint), casync protocol (real server), raw casync peer} x compressed/uncompressed x verify on/off x "
+                 "7 wrappers x {damage before first read, damage after an intact read}, plus per backend: intact chunks held by the caller while the store delivers others (twice) must stay what was delivered; random bit / truncation length / garbage per instance; consumers "
                  "AssembleFile, IndexPos, SparseFile over each poisoned verifying store")
     rep.trusted += ["zstd decoding and SHA512/256 are executed, not modelled"]
-    rep.assumptions += ["S3, SFTP and GCS backends are not exercised (no server available offline); they construct chunks with the same "
-                        "NewChunkFromStorage call as the HTTP backend"]
+    rep.assumptions += ["SFTP and GCS backends are not exercised (no server available offline); they construct chunks with the same "
+                        "NewChunkFromStorage call as the HTTP backend; S3 runs against the harness's in-memory endpoint"]
 
 
 def replay(path):
